@@ -366,6 +366,11 @@ def build_fn(part, sf, unit, opts, canary=None):
             if n > len(loops):
                 raise LostAnchor('fn %s: loop %d not found' % (part['qual'], n))
             pos = loops[n - 1][1] + 1
+        elif w[0] == 'before-loop':
+            n = int(w[1])
+            if n > len(loops):
+                raise LostAnchor('fn %s: loop %d not found' % (part['qual'], n))
+            pos = stmt_start(bm, loops[n - 1][0], 0)
         elif w[0] == 'after-loop':
             n = int(w[1])
             if n > len(loops):
